@@ -20,7 +20,7 @@ Value model:
   a `FrequencyResponseData` object -> `PyFRD K` (grid length, the model's record `DFRD K n`, timebase)
   the other operand                -> `PyOpd K`: an FRD object, a number, a 2-D ndarray, an LTI system
   a 3-D ndarray                    -> `PArr3 K`  (static views ARR3 `(p, m, n)` and STK `(n, p, m)`)
-  a 2-D ndarray                    -> `PMat K` (py2lean_ss), 1-D arrays -> `PVec` (reals), `PBVec`, `PKVec K`
+  a 2-D ndarray                    -> `PMat K` (py2lean_ss), 1-D arrays -> `FVec` (reals), `PBVec`, `PKVec K`
   Python float / complex           -> an arbitrary field `K`, EXACT arithmetic; frequencies -> `ℚ`
   sizes -> `Nat`, Python ints -> `Int`, timebase -> `Dt`, `common_timebase` -> `common`
 Errors: `raise ValueError(msg)` -> `shape` (`missing` for "not all frequencies ..."), `raise
@@ -47,7 +47,7 @@ FRD, OPD, LTI, ARR3, STK, MAT, VEC, KVEC, BVEC = "FRD", "OPD", "LTI", "ARR3", "S
 NUM, RAT, NAT, INT, DT, BOOL, PROP, SHAPE = "NUM", "RAT", "NAT", "INT", "DT", "BOOL", "PROP", "SHAPE"
 LNAT, LLNAT, KEY, OPAQUE, NONE = "LNAT", "LLNAT", "KEY", "OPAQUE", "NONE"
 LEAN_TY = {FRD: "PyFRD K", OPD: "PyOpd K", LTI: "LTI K", ARR3: "PArr3 K", STK: "PArr3 K", MAT: "PMat K",
-           VEC: "PVec", KVEC: "PKVec K", BVEC: "PBVec", NUM: "K", RAT: "ℚ", NAT: "Nat", INT: "Int", DT: "Dt",
+           VEC: "FVec", KVEC: "PKVec K", BVEC: "PBVec", NUM: "K", RAT: "ℚ", NAT: "Nat", INT: "Int", DT: "Dt",
            BOOL: "Bool", LNAT: "List Nat", LLNAT: "List (List Nat)", KEY: "List Nat × List Nat"}
 NUMBERS = ("int", "float", "complex", "np.number")
 LEAN_KEYWORDS = {"match", "with", "do", "let", "fun", "if", "then", "else", "at", "from", "have", "show", "end",
@@ -285,7 +285,7 @@ class FrdTranslator(S.Translator):
             b = self.expr(node.comparators[0], env, pre)
             fn = {ast.Lt: "ltNum", ast.Gt: "gtNum", ast.Eq: "eqNum"}.get(type(node.ops[0]))
             if a.ty == VEC and fn is not None and (b.ty == RAT or b.lit is not None):
-                return V("(PVec.%s %s %s)" % (fn, a.code, self.as_rat(b)), BVEC)
+                return V("(FVec.%s %s %s)" % (fn, a.code, self.as_rat(b)), BVEC)
             raise Unsupported("comparison %s as a value" % ast.unparse(node)[:60])
         return S.Translator.expr(self, node, env, pre)
 
@@ -297,7 +297,7 @@ class FrdTranslator(S.Translator):
         it = self.expr(g.iter, env, pre)
         x = lean_name(g.target.id)
         if it.ty == VEC:
-            lst, ety = "(PVec.toList %s)" % it.code, RAT
+            lst, ety = "(FVec.toList %s)" % it.code, RAT
         elif it.ty == LLNAT:
             lst, ety = it.code, LNAT
         else:
@@ -362,7 +362,7 @@ class FrdTranslator(S.Translator):
             if a == "shape":
                 return V(None, SHAPE, items=[V("%s.n" % v.code, NAT)])
             if a == "imag":
-                return V("(PVec.imag %s)" % v.code, VEC)
+                return V("(FVec.imag %s)" % v.code, VEC)
         raise Unsupported("attribute .%s of %s" % (a, v.ty))
 
     def is_full(self, e):
@@ -430,7 +430,7 @@ class FrdTranslator(S.Translator):
         if isinstance(op, ast.Mult) and isinstance(node.left, ast.Constant) and node.left.value == 1j:
             b = self.expr(node.right, env, pre)
             if b.ty == VEC:
-                return V("(PVec.jw E %s)" % b.code, KVEC)
+                return V("(FVec.jw E %s)" % b.code, KVEC)
             raise Unsupported("1j * %s" % b.ty)
         a = self.expr(node.left, env, pre)
         b = self.expr(node.right, env, pre)
@@ -453,7 +453,7 @@ class FrdTranslator(S.Translator):
             if a.ty == STK and b.ty == STK and not plus:
                 return self.bind(pre, "PStk.sub %s %s" % (a.code, b.code), STK)
             if a.ty == VEC and b.ty == VEC and not plus:
-                return self.bind(pre, "PVec.sub %s %s" % (a.code, b.code), VEC)
+                return self.bind(pre, "FVec.sub %s %s" % (a.code, b.code), VEC)
             if ints(a) and ints(b):
                 if a.lit is not None and b.lit is not None:
                     k = a.lit + b.lit if plus else a.lit - b.lit
@@ -552,7 +552,7 @@ class FrdTranslator(S.Translator):
         if f == "abs" and len(args) == 1 and not kws:
             v = self.expr(args[0], env, pre)
             if v.ty == VEC:
-                return V("(PVec.abs %s)" % v.code, VEC)
+                return V("(FVec.abs %s)" % v.code, VEC)
         if f == "any" and len(args) == 1 and not kws:
             if isinstance(args[0], ast.GeneratorExp):
                 g = args[0]
@@ -599,11 +599,11 @@ class FrdTranslator(S.Translator):
             if v.ty == MAT and not kws:
                 return v
             if v.ty == VEC and list(kws) == ["ndmin"] and ast.unparse(kws["ndmin"]) == "1":
-                return V("(PVec.array1 %s)" % v.code, VEC)
+                return V("(FVec.array1 %s)" % v.code, VEC)
         if self.is_call(f, "sort") and len(args) == 1 and not kws:
             v = self.expr(args[0], env, pre)
             if v.ty == VEC:
-                return V("(PVec.sort %s)" % v.code, VEC)
+                return V("(FVec.sort %s)" % v.code, VEC)
         if f == "np.exp" and len(args) == 1 and not kws:
             # np.exp(1j * omega * sys.dt)
             self.need("np")
@@ -614,7 +614,7 @@ class FrdTranslator(S.Translator):
                 w = self.expr(e.left.right, env, pre)
                 d = self.expr(e.right, env, pre)
                 if w.ty == VEC and d.ty == DT:
-                    return self.bind(pre, "PVec.expj E %s %s" % (w.code, d.code), KVEC)
+                    return self.bind(pre, "FVec.expj E %s %s" % (w.code, d.code), KVEC)
             raise Unsupported("call %s" % ast.unparse(node)[:80])
         if f == "np.moveaxis" and len(args) == 3 and not kws:
             self.need("np")
